@@ -150,6 +150,13 @@ def same_value(got: Any, want: Any) -> bool:
     return (not isinstance(got, Enum)) and got == want
 
 
+def _with_link(faults: Dict[str, int], link: Any) -> Dict[str, int]:
+    for k in ("answered-from-inside-put",):
+        if link.counters.get(k):
+            faults[k] = faults.get(k, 0) + link.counters[k]
+    return faults
+
+
 def run(ch: Choices, opts: Dict[str, Any]) -> Dict[str, Any]:
     reset_globals()
     SimNetworkInfo.reset()
@@ -161,6 +168,7 @@ def run(ch: Choices, opts: Dict[str, Any]) -> Dict[str, Any]:
     link = FakeLink(ch, sched, trace, legacy=ch.flag(1, 3, "legacy"), max_gen_delay=0 if calm else 200,
                     max_deliver_delay=0 if calm else 200, distinct_fields=True)
     link.validate = False   # the conversion is judged by the oracle below, not by the stub
+    link.eager = (not calm) and ch.flag(1, 4, "eager-link")   # the first pair may be answered from inside put()
     node = ControllerNode("n0", 0, qm, lambda: sched.now, flavour="vanilla", link=link)
     from sim.props.c12 import install_purpose_map
     if install_purpose_map(ch, node):
@@ -456,7 +464,7 @@ def run(ch: Choices, opts: Dict[str, Any]) -> Dict[str, Any]:
         bump(faults, "retry-timer-fired", node.env.retry_count)
     return {
         "digest": trace.digest(), "fingerprint": h, "nontrivial": bool(nontrivial), "events": sched.steps,
-        "sim_ns": sched.now, "faults": faults, "probes": probes, "calm": calm,
+        "sim_ns": sched.now, "faults": _with_link(faults, link), "probes": probes, "calm": calm,
         "sample": {"calls": calls, "first_request": repr(puts[0]) if puts else None,
                    "first_response": repr(link.delivered[0]["resp"]) if link.delivered else None},
     }
